@@ -76,14 +76,14 @@ def mat_diff(name, got, want, tol=1e-8):
     return None
 
 
-def native_predict(shape, seed, control_none=False):
+def native_predict(shape, seed, control_none=False, container="set"):
     """Real process_model vs oracle.  shape = (n, c, k).  Returns list of problems + scenario."""
     import numpy as np
 
     n, c, k = shape
     sc = scenarios.Scenario(n, c, k, [1], seed=seed)
     try:
-        py, ekf = scenarios.build_ekf(sc)
+        py, ekf = scenarios.build_ekf(sc, container=container)
     except Exception as e:
         return [f"constructing the filter for a valid definition raised {type(e).__name__}: {(str(e).splitlines() or [''])[0]}"], sc
     pt = sc.point(seed)
@@ -116,7 +116,7 @@ def native_predict(shape, seed, control_none=False):
     return problems, sc
 
 
-def native_update(shape, seed, k_edit=None, nis_target=None, reading_equals_prediction=False):
+def native_update(shape, seed, k_edit=None, nis_target=None, reading_equals_prediction=False, container="set"):
     """Real sensor_model vs oracle.  shape = (n, c, m)."""
     import numpy as np
 
@@ -124,7 +124,7 @@ def native_update(shape, seed, k_edit=None, nis_target=None, reading_equals_pred
     sc = scenarios.Scenario(n, c, 1, [m], seed=seed)
     cfg = {"innovation_filtering": k_edit}
     try:
-        py, ekf = scenarios.build_ekf(sc, config=cfg)
+        py, ekf = scenarios.build_ekf(sc, config=cfg, container=container)
     except Exception as e:
         return [f"constructing the filter for a valid definition raised {type(e).__name__}: {(str(e).splitlines() or [''])[0]}"], sc, None
     pt = sc.point(seed)
